@@ -22,3 +22,79 @@ Qed.
 (* with an 11th file, "10.wal" is replayed between "1.wal" and "2.wal" *)
 Theorem wal_dir_order_refuted : dir_order 11 = [0; 1; 10; 2; 3; 4; 5; 6; 7; 8; 9] /\ dir_order 11 <> seq 0 11.
 Proof. split; [vm_compute; reflexivity|]. vm_compute. discriminate. Qed.
+
+(* ---- after the fix: the files are sorted by numeric index, so the replay order is the append
+   order for EVERY number of files ---- *)
+From Coq Require Import Sorting.Permutation Sorting.Sorted.
+
+Lemma insert_idx_perm i l : Permutation (i :: l) (insert_idx i l).
+Proof.
+  induction l as [|j r IH]; cbn [insert_idx]; [apply Permutation_refl|].
+  destruct (lex_leb (suffix i) (suffix j)); [apply Permutation_refl|].
+  eapply perm_trans; [apply perm_swap|]. apply perm_skip. exact IH.
+Qed.
+
+Lemma dir_order_perm n : Permutation (seq 0 n) (dir_order n).
+Proof.
+  unfold dir_order. generalize (seq 0 n) as l. induction l as [|i l IH]; cbn [fold_right]; [constructor|].
+  eapply perm_trans; [apply perm_skip; exact IH|]. apply insert_idx_perm.
+Qed.
+
+Lemma insert_num_perm i l : Permutation (i :: l) (insert_num i l).
+Proof.
+  induction l as [|j r IH]; cbn [insert_num]; [apply Permutation_refl|].
+  destruct (Nat.ltb i j); [apply Permutation_refl|].
+  eapply perm_trans; [apply perm_swap|]. apply perm_skip. exact IH.
+Qed.
+
+Lemma sort_num_perm l : Permutation l (sort_num l).
+Proof.
+  unfold sort_num. induction l as [|i l IH]; cbn [fold_right]; [constructor|].
+  eapply perm_trans; [apply perm_skip; exact IH|]. apply insert_num_perm.
+Qed.
+
+Lemma insert_num_sorted i l : StronglySorted le l -> StronglySorted le (insert_num i l).
+Proof.
+  induction 1 as [|j r Hr IH Hj]; cbn [insert_num].
+  - constructor; constructor.
+  - destruct (Nat.ltb_spec i j) as [Hij|Hij].
+    + constructor; [constructor; assumption|]. constructor; [lia|].
+      rewrite Forall_forall in *. intros x Hx. specialize (Hj x Hx). lia.
+    + constructor; [exact IH|].
+      rewrite Forall_forall in *. intros x Hx.
+      apply (Permutation_in _ (Permutation_sym (insert_num_perm i r))) in Hx.
+      destruct Hx as [<-|Hx]; [lia|auto].
+Qed.
+
+Lemma sort_num_sorted l : StronglySorted le (sort_num l).
+Proof. unfold sort_num. induction l as [|i l IH]; cbn [fold_right]; [constructor|]. apply insert_num_sorted. exact IH. Qed.
+
+Lemma sorted_perm_unique : forall l1 l2 : list nat,
+  StronglySorted le l1 -> StronglySorted le l2 -> Permutation l1 l2 -> l1 = l2.
+Proof.
+  induction l1 as [|x l1 IH]; intros l2 S1 S2 P.
+  - apply Permutation_nil in P. subst. reflexivity.
+  - destruct l2 as [|y l2]; [apply Permutation_sym, Permutation_nil in P; discriminate|].
+    inversion S1 as [|? ? S1' F1]; subst. inversion S2 as [|? ? S2' F2]; subst.
+    rewrite Forall_forall in F1, F2.
+    assert (x = y) as ->.
+    { assert (Hx : In x (y :: l2)) by (eapply Permutation_in; [exact P|left; reflexivity]).
+      assert (Hy : In y (x :: l1)) by (eapply Permutation_in; [apply Permutation_sym; exact P|left; reflexivity]).
+      destruct Hx as [->|Hx]; [reflexivity|]. destruct Hy as [->|Hy]; [reflexivity|].
+      specialize (F1 _ Hy). specialize (F2 _ Hx). lia. }
+    f_equal. apply IH; try assumption. eapply Permutation_cons_inv. exact P.
+Qed.
+
+Lemma seq_sorted s n : StronglySorted le (seq s n).
+Proof.
+  revert s. induction n as [|n IH]; intros s; cbn [seq]; constructor; [apply IH|].
+  rewrite Forall_forall. intros x Hx. apply in_seq in Hx. lia.
+Qed.
+
+Theorem wal_replay_order_is_append_order : forall n, replay_order n = seq 0 n.
+Proof.
+  intros n. unfold replay_order. apply sorted_perm_unique.
+  - apply sort_num_sorted.
+  - apply seq_sorted.
+  - apply Permutation_sym. eapply perm_trans; [apply dir_order_perm|apply sort_num_perm].
+Qed.
